@@ -1068,7 +1068,7 @@ func (m *Machine) PanicToErrState(state string, args A) {
 	if err, ok := r.(error); ok {
 		m.AddErrState(state, err, args)
 	} else {
-		m.AddErrState(state, fmt.Errorf("%v", err), args)
+		m.AddErrState(state, fmt.Errorf("%v", r), args)
 	}
 }
 
